@@ -66,6 +66,22 @@ def check_case(rep, case, name):
         rep.ok()
         # the same tabulation object written again after the failure (a caller that retries, or writes to a second file): only
         # evaluation number k fails, so this write succeeds -- it emits the whole table (or, if it raises, nothing)
+        if case['target'].startswith('excel'):
+            # Excel targets: compare cell contents (the archive carries time stamps)
+            import openpyxl
+            def cells(b):
+                wb = openpyxl.load_workbook(io.BytesIO(b)); return [(ws.title, [[c.value for c in row] for row in ws.iter_rows()]) for ws in wb]
+            out2 = io.BytesIO(); raised2 = None
+            try: tab.write(out2)
+            except Boom as e: raised2 = e
+            if raised2 is None:
+                full = io.BytesIO(); build(case, Counter(-1)).write(full)
+                if cells(out2.getvalue()) != cells(full.getvalue()):
+                    got = [(t_, len(r_)) for t_, r_ in cells(out2.getvalue())]; want = [(t_, len(r_)) for t_, r_ in cells(full.getvalue())]
+                    rep.dev(name, dict(case, ks=[k]), 'second write() of the object after a failure at evaluation %d of %d returned normally with sheets %r (the complete workbook has %r)' % (k, total, got, want), 'the whole table or nothing'); return
+            elif out2.getvalue() != b'':
+                rep.dev(name, dict(case, ks=[k]), 'second write() after a failure left %d bytes' % len(out2.getvalue()), 'nothing'); return
+            rep.ok()
         if not case['target'].startswith('excel'):
             out2 = io.StringIO(); raised2 = None
             try: tab.write(out2)
@@ -82,6 +98,10 @@ def gen_case(rng, target=None):
     target = target or rng.choice(TARGETS)
     m = mk_eam_model(rng, fs=target.endswith('_fs'))
     if not m['pairs']: m['pairs'] = [dict(A=m['elements'][0]['species'], B=m['elements'][0]['species'], fn=rand_callable_spec(rng))]
+    if target in ('LAMMPS', 'DLPOLY', 'GULP', 'excel') and len(m['pairs']) < 2:
+        # at least two pair interactions: a writer that emits one interaction at a time is only exposed by a failure in a LATER one
+        a0 = m['elements'][0]['species']
+        m['pairs'].append(dict(A=a0, B='Zz', fn=rand_callable_spec(rng)))
     return dict(target=target, model=m)
 
 if __name__ == '__main__':
